@@ -981,7 +981,14 @@ pub fn run_check(mode: Mode, replay: Option<Value>) -> i32 {
                         if only.as_ref().map(|k| *k != key).unwrap_or(false) {
                             continue;
                         }
-                        let (x0, xend): (f64, f64) = (dirn * 1e9, dirn * 1e9 + dirn);
+                        // (for the larger two the interval is three ulps longer than 1024 steps: the regular steps end three ulps
+                        // before xend and the root lies in the sliver that is left)
+                        let x0: f64 = dirn * 1e9;
+                        let mut xend: f64 = dirn * 1e9 + dirn;
+                        if back_ulps > 1 {
+                            xend = f64::from_bits(xend.to_bits() + 3);
+                        }
+                        let back_ulps = if back_ulps > 1 { back_ulps / 3 } else { 1 };
                         let mut root = xend;
                         for _ in 0..back_ulps {
                             root = f64::from_bits(root.to_bits() - 1);
